@@ -724,7 +724,14 @@ pub fn gen_c08(r: &mut Rng, tier: Tier) -> Case {
     o.glob_named = false;
     let world = gen::gen_world(r, &o);
     let good = world.render();
-    let p = &POISONS[r.below(POISONS.len() as u64) as usize];
+    // half of the cases take a construct from the fixed catalogue, half generate one at a nested
+    // position (container chains up to depth 5, seven item positions)
+    let p: gen::GenPoison = if r.chance(1, 2) {
+        let c = &POISONS[r.below(POISONS.len() as u64) as usize];
+        gen::GenPoison { id: c.id.to_string(), poison: c.poison.to_string(), skipped: c.skipped.map(|s| s.to_string()) }
+    } else {
+        gen::gen_nested_poison(r)
+    };
     // the construct may sit in a nested module, next to valid items, or alone in its file
     let wrap = |text: &str, depth: u64| -> String {
         let mut t = text.to_string();
@@ -749,7 +756,7 @@ pub fn gen_c08(r: &mut Rng, tier: Tier) -> Case {
         String::new()
     };
     let with_companion = |t: String| if companion.is_empty() { t } else { format!("{companion}{t}") };
-    let poison_text = with_companion(wrap(p.poison, depth));
+    let poison_text = with_companion(wrap(&p.poison, depth));
     // the skip marker in one of its equivalent spellings
     let spell = |r: &mut Rng, s: &str| -> String {
         let alts = [
@@ -770,7 +777,7 @@ pub fn gen_c08(r: &mut Rng, tier: Tier) -> Case {
             s.replacen("#[typeshare(skip)]", &a, 1)
         }
     };
-    let skipped_text = p.skipped.map(|s| with_companion(wrap(&spell(r, s), depth)));
+    let skipped_text = p.skipped.as_deref().map(|s| with_companion(wrap(&spell(r, s), depth)));
     let mut poisoned = good.clone();
     // same planting position for the poisoned and the skipped variant
     let mut r2 = r.clone();
